@@ -1195,7 +1195,10 @@ struct ssl
     unsigned char sessionId[SSL_MAX_SESSION_ID_SIZE];
     unsigned char sessionIdInTable; /* Servers: sessionId refers to the
                                        session table entry this session
-                                       registered or resumed. Otherwise it is
+                                       registered (1: reserved, not yet
+                                       filled in; 2: filled in when the
+                                       handshake completed) or resumed (2).
+                                       Otherwise (0) it is
                                        just the value the client sent (echoed
                                        for a ticket resumption or in TLS 1.3) */
     sslSessionId_t *sid;
